@@ -25,7 +25,7 @@ CLAIMED = {
         text='Seeded search over client workloads, latencies, set orders and fault/cancellation times against the real '
              'ConnectionPool/HostPool/Connection code. Sharing and over-allocation are checked as invariants after every '
              'event-loop callback; starvation at every instant when nothing is runnable; leaks and bookkeeping after all '
-             'clients finished. One variant uses the HTTP proxy pool: plain requests, acquire()/session(), and tunnels whose CONNECT is granted, refused, answered with rubbish, answered late (so that cancellations fall inside it) or closed. A clean batch is evidence, not proof; tiny configurations saturate their interleaving space.',
+             'clients finished. One variant uses the HTTP proxy pool: plain requests, acquire()/session(), and tunnels whose CONNECT is granted, refused, answered with rubbish, answered late (so that cancellations fall inside it) or closed, with and without TLS inside the tunnel (second use of a kept-alive tunnel). A clean batch is evidence, not proof; tiny configurations saturate their interleaving space.',
         note='Trusted: CPython 3.12 asyncio primitives, the compatibility layer (DESIGN 1), FIFO ready queue. '
              'TCP/DNS/clock are simulated.'),
     'C13': dict(
@@ -49,7 +49,7 @@ CLAIMED = {
              'and trailers / read-until-close / no-body framings, content codings, surplus bytes, truncation at arbitrary '
              'and grammar-targeted offsets by FIN or RST) and over stream segmentations down to single bytes, on persistent '
              'connections in lock-step. Oracle: (status, fields, body, error) versus refs/rfc7230.py per exchange; truncated '
-             'messages must raise; connection reuse after surplus is monitored at the server, and so is reuse after a response that announced the end of the connection (Connection: close, HTTP/1.0 without keep-alive) with a FIN that arrives late. One variant drives a single Stream object through the whole script.',
+             'messages must raise; connection reuse after surplus is monitored at the server (as is a body that pauses beyond --session-timeout: error, not a short success), and so is reuse after a response that announced the end of the connection (Connection: close, HTTP/1.0 without keep-alive) with a FIN that arrives late. One variant drives a single Stream object through the whole script.',
         note='Trusted: refs/rfc7230.py for the generated unambiguous messages, zlib, CPython asyncio streams, compat layer. '
              'Only messages for which RFC 7230 gives one answer are generated.'),
     'C19': dict(
@@ -132,7 +132,7 @@ CLAIMED = {
              'chains over 301/302/303/307/308 across hosts and schemes with absolute/relative Location spellings, Set-Cookie with and '
              'without Domain (incl. foreign domain), 401 challenges, referrers. Oracle per request: one well-formed request line with '
              'the expected target, header lines without bare CR/LF/NUL, exactly one Host equal to the connection\'s host[:port], no '
-             'URL-embedded credentials or host-only/foreign cookies on another host.',
+             'URL-embedded credentials or host-only/foreign cookies on another host; Domain cookies of hosts without a domain (IP literals, single-label names) and the proxy login stay where they belong. One run in twelve is the whole application crawling several hosts with --header / --referer (Host judged per request).',
         note='Trusted: expected targets by construction for a fixed menu of path/query pieces (calibrated once against the code: '
              'space in query is "+"). Option-level credentials are not host-bound and not judged. TLS is a plaintext stub.'),
     'C18': dict(
@@ -180,7 +180,7 @@ CLAIMED = {
              'nofollow pages, redirects, origins, concurrency and user agents. Oracle: no requested URL is disallowed for the agent; '
              'robots.txt of an origin is completely received before any other request to it and not requested again by items '
              'started after it was obtained; URLs reachable only through nofollow pages are never requested; 404 means allow-all; '
-             '5xx and network faults during the fetch postpone (no request to that origin until it is obtained); rules with query parts and non-ASCII paths; tag options and --sitemaps drawn; coverage equals the reference crawl.',
+             '5xx and network faults during the fetch postpone (no request to that origin until it is obtained); rules with query parts, non-ASCII paths and the wildcards * and $ (RFC 9309 2.2.3); tag options and --sitemaps drawn; coverage equals the reference crawl.',
         note='Trusted: refs/robots.py for the restricted dialect, refs/site.py, refs/scope.py. Concurrent first fetches of one '
              'robots.txt are not judged. Open known finding: with --sitemaps robots.txt is requested again as an ordinary URL.'),
     'C03': dict(
@@ -189,7 +189,7 @@ CLAIMED = {
                   'replayed schedule and dies with os._exit(137) at an enumerated instant (before/after every SQL statement and commit, '
                   'on every server request and delivered segment); a copy of the SQLite files is inspected; run 2 (same command) resumes, '
                   'optionally killed again',
-        text='Workloads (HTTP site graph or FTP directory tree, concurrency, schedule; variants: --database-uri, --sitemaps with a skipped start URL, transient 503/resets, > 1000 input URLs) are sampled; per workload the kill instants are enumerated: all of them in '
+        text='Workloads (HTTP site graph or FTP directory tree, concurrency, schedule; variants: --database-uri, --sitemaps with a skipped start URL, transient 503/resets, > 1000 input URLs, --input-file, depth limits, small --tries) are sampled; per workload the kill instants are enumerated: all of them in '
              'the thorough tier, a drawn sample (incl. instants right after status commits and during schema creation) in the quick '
              'tier. Oracle: no URL recorded done/skipped before the kill is requested again as an item; no row lost or left non-final; '
              'the runs together request every URL of the reference crawl and every URL the uninterrupted run of the same command requested; the resumed run terminates; scope does not widen.',
